@@ -51,7 +51,8 @@ namespace details {
             }
             else
             {
-                return read_16bit_uuid( bytes_ ) == attr.uuid;
+                // internal_128bit_uuid is the marker for "attribute type is a 128 bit UUID", not a type to be found
+                return read_16bit_uuid( bytes_ ) == attr.uuid && attr.uuid != bits( gatt_uuids::internal_128bit_uuid );
             }
         }
 
